@@ -14,7 +14,7 @@ import (
 func init() {
 	register(&Property{
 		ID:        "C10",
-		Technique: "codec layout agreement of the error encoding, value-flow provenance of the error from handler to wire to caller, constant-format check for printf-like calls, type-switch order in the code extractor",
+		Technique: "codec layout agreement of the error encoding, value-flow provenance of the error from handler to wire to caller, constant-format check for printf-like calls, type-switch order in the code extractor; tested-then-dropped error (contradiction) check and interprocedural lock-pairing check over the packages the property is anchored in; sibling cross-check of the two hand-written unwrap loops",
 		Explanation: "Statically decidable part of 'handler errors reach the caller with message and code intact': " +
 			"(R1) MarshalError and UnmarshalError agree on 8 big-endian code bytes followed by the text, the decoder's slices are split at the same offset behind the length guard, and the peer's text is only ever a printf ARGUMENT (constant format); " +
 			"(R2) provenance: what the server sends is the handler's own error (through nil-preserving wrappers only), what the mux returns is the receiver's error through chain-preserving wrappers, and the error packet carries MarshalError of SendError's argument; " +
